@@ -201,7 +201,8 @@ add("C04",
                "same plaintext under another key, index entry edits}: reading every snapshot and index file by id, every blob through the index and every whole snapshot must fail or return the original content. "
                "(a)+(b) In every state of a BFS (depth 3 quick / 5 thorough) over {backup, prune with fast and re-encoding repack, forget, copy into a repository with another key, compression change} with the real RNG, the nonces of all files, pack headers and blobs "
                "are pairwise distinct and non-zero unless the whole ciphertext is a verbatim copy, and no stored file other than keys contains a file/dir name, label, host, tag, JSON key literal or any 8-byte window of file content. "
-               "(d) Every key add/delete/open history up to length 2 (quick) / 3 (thorough): a password opens iff one of the present key files was made with it, the master key always opens, a wrong password or another master key never.",
+               "(d) Every key add/delete/open history up to length 2 (quick) / 3 (thorough): a password opens iff one of the present key files was made with it, the master key always opens, a wrong password or another master key never. "
+               "(e) 7 passwords differing only in leading/inner/trailing white space x {password file, password command} x line endings {none, LF, CRLF}: a repository initialised with p given directly opens through every channel configured with p and is refused for every other password.",
     level_note="Semantic security (IND-CPA, unforgeability, RNG quality) is outside any bounded enumeration: only literal substrings and nonce collisions are decided. scrypt runs with its real cost.",
     shards={"quick": 16, "thorough": 16},
     require_counts=["nonces_checked", "plaintext_windows_checked", "tamper_cases", "credential_histories", "held:swap/pack", "held:other-key/snapshot", "held:flip/pack/blob-mac", "held:flip/config/mac"],
